@@ -12,7 +12,10 @@ RULE = ("three op lines per case on the real `get_instance_handle_from_dynamic_d
         "`kh <type> <v2>`, `khrt <ver> <endianness> <type> <v1>`; random keyed structure types (1-4 key members: primitives, "
         "strings, enums, arrays, sequences, whole structures; key members inside nested non-key structures; "
         "final / appendable / mutable) and value pairs where v2 = v1, or v1 with one non-key member changed, or v1 with one "
-        "key member changed; a case is non-trivial when the type has a key member inside a nested structure or more than "
+        "key member changed; FOLLOW-UP 3: one case in five has an OPTIONAL member of structure type whose structure carries key "
+        "members of its own (top level or inside a non-optional nested structure; present and absent values), and in two "
+        "thirds of those v2 = v1 with that optional structure removed / added / changed - it is not part of the key, the "
+        "handle must not change and an absent one must not prevent the handle; a case is non-trivial when the type has a key member inside a nested structure or more than "
         "one key member; distinct by canonical op lines")
 ASSUMPTIONS = [
     "MD5 collisions are not expected among the generated values (a collision would be reported as a violation)",
@@ -114,11 +117,19 @@ def gen_cases(ctx):
         ver = r.choice([1, 2])
         collide = k % 10 == 0
         exotic = k % 13 == 0
-        t = X.gen_keyed_type(r, ver=ver, collide=collide, exotic=exotic)
+        optkey = k % 5 == 1      # follow-up 3: an optional member whose structure type has key members of its own
+        t = X.gen_keyed_type(r, ver=ver, collide=collide, exotic=exotic, optkey=optkey)
         kn = X.Knobs(ver=ver)
         v1 = X.gen_value(r, t, kn, ver=ver)
         c = r.below(3)
-        v2 = v1 if c == 0 else X.mutate_value(r, t, v1, key=(c == 2))
+        if optkey and r.chance(2, 3):
+            # the optional structure removed / given (another) value: not a key member, the handle must not change
+            v2 = X.toggle_opt_struct(r, t, v1, ver)
+            if v2 is not None:
+                ctx.count("pair: optional keyed structure " + ("removed" if X.val_text(v2).count("_") > X.val_text(v1).count("_")
+                                                               else "added / changed"))
+        else:
+            v2 = v1 if c == 0 else X.mutate_value(r, t, v1, key=(c == 2))
         if v2 is None:
             v2 = v1
         tt = X.ty_text(t)
@@ -128,6 +139,16 @@ def gen_cases(ctx):
 
 
 CORPUS = [
+    # follow-up 3: an OPTIONAL nested structure with key members of its own contributes nothing to the key:
+    # present / absent / other content -> same handle; absent -> still a handle
+    ["kh SF{0k:u8,5o:SF{6k:u8,7k:u16},2:u32} {5,{1,2},7}", "kh SF{0k:u8,5o:SF{6k:u8,7k:u16},2:u32} {5,_,7}",
+     "khrt 1 le SF{0k:u8,5o:SF{6k:u8,7k:u16},2:u32} {5,{1,2},7}"],
+    ["kh SF{0k:u8,5o:SF{6k:u8,7k:u16},2:u32} {5,{1,2},7}", "kh SF{0k:u8,5o:SF{6k:u8,7k:u16},2:u32} {5,{3,4},7}",
+     "khrt 2 be SF{0k:u8,5o:SF{6k:u8,7k:u16},2:u32} {5,_,7}"],
+    ["kh SA{0k:u16,3:SF{4:u8,8o:SA{9k:s}}} {7,{1,{x6162}}}", "kh SA{0k:u16,3:SF{4:u8,8o:SA{9k:s}}} {7,{1,_}}",
+     "khrt 2 le SA{0k:u16,3:SF{4:u8,8o:SA{9k:s}}} {7,{1,_}}"],
+    ["kh SM{3o:SF{4k:u64,5k:u64,6k:u8},2k:u32} {{1,2,3},9}", "kh SM{3o:SF{4k:u64,5k:u64,6k:u8},2k:u32} {_,9}",
+     "khrt 1 be SM{3o:SF{4k:u64,5k:u64,6k:u8},2k:u32} {{1,2,3},9}"],
     # D73: flattened key member ids collide
     ["kh SF{0k:u8,1:SF{0k:u8}} {1,{2}}", "kh SF{0k:u8,1:SF{0k:u8}} {5,{2}}", "khrt 1 le SF{0k:u8,1:SF{0k:u8}} {1,{2}}"],
     ["kh SF{0k:u8,1:SF{0k:u16}} {5,{2}}", "kh SF{0k:u8,1:SF{0k:u16}} {5,{2}}", "khrt 2 le SF{0k:u8,1:SF{0k:u16}} {5,{2}}"],
@@ -162,6 +183,13 @@ def run(ctx):
         except ValueError:
             pass
         ctx.count("pair: same value" if c.lines[0] == c.lines[1] else "pair: different value")
+        try:
+            if X.opt_keyed_struct_paths(X.parse_ty(ty)):
+                ctx.count("type has an optional structure member with key members of its own")
+                ctx.count("... its value is " + ("absent" if any(X.value_at(X.parse_val(c.lines[0].split()[2]), p) is None
+                                                                  for p in X.opt_keyed_struct_paths(X.parse_ty(ty))) else "present"))
+        except ValueError:
+            pass
     keys = sorted(set(keys))
     for k, o in zip(keys, X.model_outputs(keys, eng)):
         WFK[k] = o
@@ -198,7 +226,10 @@ TECHNIQUE = ("Lean 4 theorems over the key-holder model on top of the XCDR model
              "C09 round trip with remainder) + differential correspondence with get_instance_handle_from_dynamic_data and the "
              "reader-side derivations")
 LEVEL_TEXT = ("Kernel-checked Lean theorems: C11_same_key_same_handle and C11_nonkey_irrelevant (every type and value: equal key "
-              "members give equal handles, members outside the key are irrelevant), C11_iff_partial (for all keyed structures and "
+              "members give equal handles, members outside the key are irrelevant), C11_optional_member_irrelevant (every type, "
+              "value, optional non-key member, replacement value incl. none: key projection, handle and the outcome of the real "
+              "function unchanged - optional nested structures with key members of their own contribute nothing), "
+              "C11_optional_struct_not_in_key_holder_type, C11_iff_partial (for all keyed structures and "
               "value pairs inside the decidable predicate wfKey: handles equal iff key members equal or the two key serializations "
               "collide in pad16/MD5 - the collision is spelled out, MD5 stays opaque; injectivity of the big-endian key "
               "serialization follows from the C09 round trip with remainder), C11_writer_reader_agree (writer handle = handle the "
